@@ -343,6 +343,7 @@ impl<'a> DpRun<'a> {
             let port = world.new_device_port(&format!("slave#{}", p.addr));
             let mut core = SlaveCore::new(p.addr, p.slave_ident, p.slave_cfg.clone(), p.in_len, p.out_len);
             core.present = p.present;
+            core.strict_sap = p.slave_ident & 1 == 1;
             let core = Rc::new(RefCell::new(core));
             let script = Rc::new(RefCell::new(Vec::new()));
             let random_pct = Rc::new(RefCell::new(0u64));
@@ -1062,8 +1063,11 @@ pub fn make_bufs(cfg: &DpCfg) -> Vec<(Vec<u8>, Vec<u8>)> {
 // Workloads
 // ------------------------------------------------------------------------------------------------
 
-pub const HOSTILE: [Fault; 25] = [
+pub const HOSTILE: [Fault; 28] = [
     Fault::PrmReqOnly,
+    Fault::FlagOnly(0x40),
+    Fault::FlagOnly(0x04),
+    Fault::FlagOnly(0x02),
     Fault::RequestLost,
     Fault::ReplyLost,
     Fault::ReplyCorrupted,
